@@ -292,7 +292,8 @@ def pipeline(hashseed, pdb_text, args, timeout=None, _retry=False):
         _restart(hashseed)
         again = pipeline(hashseed, pdb_text, args, timeout=timeout, _retry=True)
         again['retried_on_new_server'] = True
-        again['first_error'] = res.get('error')
+        frames = [l.strip() for l in (res.get('traceback') or '').split('\n') if l.strip().startswith('File ')]
+        again['first_error'] = '%s at %s' % (res.get('error'), frames[-1][-90:] if frames else '?')
         return again
     if _REQUESTS[hashseed] >= MAX_REQUESTS_PER_SERVER:
         _restart(hashseed)
@@ -520,7 +521,7 @@ def run(case):
     if transform['hashseed'] != 0:
         classes.append('other-hashseed')
     if res_a.get('retried_on_new_server') or res_b.get('retried_on_new_server'):
-        classes.append('observation:crash-not-repeated-in-a-new-process:%s' % (res_a.get('first_error') or res_b.get('first_error') or '')[:60])
+        classes.append('observation:crash-not-repeated-in-a-new-process:%s' % (res_a.get('first_error') or res_b.get('first_error') or '')[:160])
     if opt['elastic'] or opt['ff'].startswith('elnedyn'):
         classes.append('elastic')
     if opt['ss'] == 'dssp':
